@@ -19,8 +19,8 @@ iters=2000; [ "$tier" = thorough ] && iters=20000
 rm -f .work/race.json
 if CGO_ENABLED=1 go build $MODFLAG -race -o bin/vrace19 ./cmd/vrace19 2> .work/buildrace.log; then
   # a deadlock introduced into the code under test would make the free-running pass hang for ever:
-  # it normally needs well under a minute, so after 15 (thorough 40) minutes it is stopped and reported
-  limit=900; [ "$tier" = thorough ] && limit=2400
+  # it normally needs well under a minute, so after 5 (thorough 25) minutes it is stopped and reported
+  limit=300; [ "$tier" = thorough ] && limit=1500
   GORACE="halt_on_error=0" timeout -k 5 $limit ./bin/vrace19 $iters > .work/race.out 2> .work/race.log; racerc=$?
   [ $racerc = 124 ] || [ $racerc = 137 ] && echo "RACE-PASS-HUNG after ${limit}s" >> .work/race.log
   python3 - <<PY
